@@ -64,7 +64,7 @@ def gen(rng, tier):
                                                 for i in range(N)]
     return {'pos': pos, 'weights': weights, 'npartition': npart, 'box': box, 'coord': coord, 'dtype': dtype,
             'sort': rng.random() < 0.4, 'nthread': rng.choice([1, 2, 3, 4, 5, 7, 8, 16, 16, rng.randrange(1, 17)]),
-            'sched': gen_sched(rng), 'compiled': rng.random() < 0.2,
+            'sched': gen_sched(rng), 'compiled': rng.random() < 0.2, 'edit_between_calls': rng.random() < 0.3,
             'wdtype': rng.choice([dtype, dtype, 'f4', 'f8'])}
 
 
@@ -193,6 +193,25 @@ def run(case):
         results[poison] = res
         if out['violations']:
             return out
+        if poison == 'A' and case.get('edit_between_calls') and N:
+            # history: the caller edits the *same* array objects in place and partitions again with identical arguments
+            pos2 = ((pos.astype(np.float64)[::-1] + 0.37 * case['box']) % case['box']).astype(ft)
+            pos2[pos2 >= ft(case['box'])] = 0
+            p_in[...] = pos2
+            w2 = None
+            if w_in is not None:
+                w2 = (weights[::-1] * 2).astype(weights.dtype)
+                w_in[...] = w2
+            res2, exc2, _ = H.run(lambda: tsc.partition_parallel(p_in, case['npartition'], case['box'], weights=w_in,
+                                                                  coord=case['coord'], nthread=case['nthread'],
+                                                                  sort=case['sort']), H.without_replay(s), poison=poison)
+            if exc2 is not None:
+                violation(out, 'raises:' + type(exc2).__name__, site + ':second-call-on-edited-arrays', repr(exc2)[:300])
+                return out
+            _oracle(out, site + ':second-call-on-edited-arrays', case, pos2, w2, res2)
+            bump(out['faults'], 'arrays-edited-in-place-between-calls')
+            if out['violations']:
+                return out
     a, b = results['A'], results['B']
     same = all((x is None and y is None) or (x is not None and y is not None and
                                               np.asarray(x).tobytes() == np.asarray(y).tobytes())
